@@ -146,19 +146,27 @@ def _user(ck, prog, f, construct):
                   slot="user:%s:alphabet" % name, where=f.loc(),
                   note="the alphabet (and with it the entropy base of the WF complexity) must not depend on the sequence")
         n += 1
+    from lcsa import tab
+    order = list(tab.global_literal(prog, tab.AA, "TWENTY_AAs"))
+    ck.shape(sorted(order) == sorted(LETTERS), "data.aminoacids.TWENTY_AAs lists the twenty letters")
     for L in LETTERS:
         d = dict(three)
         del d[L]
         res = reduction(prog, user=d)
         ck.ob("DT-user-validate", construct, res[0] == "raise", expected="missing key %s rejected" % L, found=res[0],
               slot="user:missing:%s" % L, where=f.loc())
-        for bad, why in (("X", "non-amino-acid"), (three[L].lower(), "lower-case"), ("AL", "two letters")):
+        # strings that a containment test on a joined string of the residues (rather than on the list) would let through: the empty string,
+        # a run of neighbours in the library's own residue order, the whole run
+        k = order.index(L)
+        runs = [("", "empty string"), (order[k] + order[(k + 1) % 20], "two neighbouring letters"), ("".join(order), "all twenty letters"),
+                ("".join(sorted(order))[:3], "first three letters alphabetically")]
+        for bad, why in [("X", "non-amino-acid"), (three[L].lower(), "lower-case"), ("AL", "two letters")] + runs:
             d = dict(three)
             d[L] = bad
             res = reduction(prog, user=d)
             ck.ob("DT-user-validate", construct, res[0] == "raise", expected="%s value for %s rejected" % (why, L),
                   found=res[0], slot="user:%s:%s" % (why, L), where=f.loc())
-        n += 4
+        n += 8
     ck.count("user-alphabet cases", n)
     # a non-dict user alphabet is rejected
     res = reduction(prog, user=["A", "B"])
